@@ -3,6 +3,7 @@ import MalVerif.Model.AGraph
 import MalVerif.Model.AGS
 import MalVerif.Model.Query
 import MalVerif.Model.Gen
+import MalVerif.Model.MState
 open Lean MalVerif
 
 namespace Drv
@@ -237,6 +238,82 @@ def opEval (j : Json) : R Json := do
   | .error er => pure (jO [("error", jS (evalErrName er))])
   | .ok r => pure (jO [("targets", jsonOfList jI r.1), ("step", jOptS r.2)])
 
+
+/-! ### instance-model histories (C05, C06, C07) -/
+open MS in
+def obsM (L : Lang) (s : St) : Json :=
+  let aid (a : Nat) : Json := jI (s.aobj a).id
+  let lpos (l : Nat) : Json := match s.associations.idxOf? l with | some i => jN i | none => jI (-1)
+  jO [("assets", jsonOfList (fun a =>
+          let o := s.aobj a
+          let dflt := defensesOf L o.type
+          let nd := o.defenses.filter (fun d => !(dflt.any (fun e => e.1 = d.1 && e.2 = d.2)))
+          Json.arr #[jI o.id, jS o.name, jS o.type,
+                     jsonOfList (fun (d : String × String) => Json.arr #[jS d.1, jS d.2]) nd,
+                     jS o.extras, jsonOfList lpos o.assocs]) s.assets),
+      ("associations", jsonOfList (fun l =>
+          let o := s.lobj l
+          Json.arr #[jS o.cls, jS o.lf, jsonOfList aid o.left, jS o.rf, jsonOfList aid o.right, jS o.extras]) s.associations),
+      ("attackers", jsonOfList (fun t =>
+          let o := s.tobj t
+          Json.arr #[jI o.id, jS o.name, jsonOfList (fun (ep : Nat × List String) =>
+              Json.arr #[aid ep.1, jsonOfList jS ep.2]) o.entry]) s.attackers),
+      ("assetIds", jsonOfList jI s.assetIds), ("assetNames", jsonOfList jS s.assetNames),
+      ("tta", jsonOfList (fun (e : String × List Nat) => Json.arr #[jS e.1, jsonOfList lpos e.2]) s.typeToAssoc),
+      ("nextId", jI s.nextId)]
+
+def mErrName : MS.Err → String
+  | .valueError => "ValueError" | .lookupError => "LookupError" | .duplicateAssociation => "DuplicateModelAssociationError"
+  | .modelAssociation => "ModelAssociationException" | .validation => "ValidationError"
+
+open MS in
+def mStep (L : Lang) (s : St) (j : Json) : R (St × Json × Json) := do
+  let k ← jfield jstr j "k"
+  let ok (s' : St) (out : Json := Json.null) : R (St × Json × Json) := pure (s', Json.null, out)
+  let res (r : Except Err St) : R (St × Json × Json) :=
+    match r with | .ok s' => pure (s', Json.null, Json.null) | .error e => pure (s, jS (mErrName e), Json.null)
+  match k with
+  | "add_asset" =>
+    let defs ← jfield (jlist (fun e => do
+      match (← jarr e) with
+      | [a, b] => pure ((← jstr a), (← jstr b))
+      | _ => throw "bad defense")) j "defenses"
+    res (addAsset L s (← jfield jstr j "type") (← jfieldOpt jstr j "name") defs (← jfield jbool j "defsOk")
+          (← jfield jstr j "extras") (← jfieldOpt jint j "id") (← jfield jbool j "allowDup"))
+  | "remove_asset" => res (removeAsset s (← jfield jnat j "a"))
+  | "remove_asset_from_association" => res (removeAssetFromAssociation s (← jfield jnat j "a") (← jfield jnat j "l"))
+  | "add_association" => res (addAssociation L s (← jfield jstr j "cls") (← jfield (jlist jnat) j "left") (← jfield (jlist jnat) j "right"))
+  | "remove_association" => res (removeAssociation s (← jfield jnat j "l"))
+  | "add_attacker" => ok (addAttacker s (← jfieldOpt jstr j "name") (← jfieldOpt jint j "id"))
+  | "remove_attacker" => res (removeAttacker s (← jfield jnat j "t"))
+  | "add_entry_point" => ok (addEntryPoint s (← jfield jnat j "t") (← jfield jnat j "a") (← jfield jstr j "step"))
+  | "remove_entry_point" => ok (removeEntryPoint s (← jfield jnat j "t") (← jfield jnat j "a") (← jfield jstr j "step"))
+  | "lookup" =>
+    let ids ← jfield (jlist jint) j "ids"
+    let names ← jfield (jlist jstr) j "names"
+    let nb ← jfield (jlist (fun e => do
+      match (← jarr e) with
+      | [a, f] => pure ((← jnat a), (← jstr f))
+      | _ => throw "bad nb")) j "nbrs"
+    let f (o : Option Nat) : Json := match o with | some r => jI (s.aobj r).id | none => Json.null
+    let ft (o : Option Nat) : Json := match o with | some r => jI (s.tobj r).id | none => Json.null
+    ok s (jO [("ids", jsonOfList (fun i => f (getAssetById s i)) ids),
+              ("names", jsonOfList (fun n => f (getAssetByName s n)) names),
+              ("aids", jsonOfList (fun i => ft (getAttackerById s i)) ids),
+              ("nbrs", jsonOfList (fun (e : Nat × String) => jsonOfList (fun r => jI (s.aobj r).id) (neighbours s e.1 e.2)) nb)])
+  | _ => throw s!"bad model op {k}"
+
+def opModelHist (j : Json) : R Json := do
+  let L ← parseLang (← jget j "lang")
+  let ops ← jfield jarr j "ops"
+  let mut s : MS.St := {}
+  let mut outs : Array Json := #[]
+  for o in ops do
+    let (s', err, out) ← mStep L s o
+    s := s'
+    outs := outs.push (jO [("err", err), ("out", out), ("obs", obsM L s)])
+  pure (Json.arr outs)
+
 def dispatch (j : Json) : R Json := do
   let op ← jfield jstr j "op"
   match op with
@@ -245,6 +322,7 @@ def dispatch (j : Json) : R Json := do
   | "resolve" => opResolve j
   | "gen" => opGen j
   | "eval" => opEval j
+  | "model_hist" => opModelHist j
   | _ => throw "bad-op"
 
 def handle (line : String) : String :=
